@@ -262,8 +262,10 @@ def spec(w, address, getvar, mem, endian):
 
 # ---------------------------------------------------------------- generator --
 
-def words(thorough=False):
+def words(thorough=False, rnd=None, nrand=0):
     out = []
+    if rnd is not None and nrand:
+        out += random_words(rnd, nrand)
     regs = [(0, 1, 2), (3, 3, 3), (31, 31, 5), (5, 31, 31), (0, 0, 1), (30, 29, 28)]
     if thorough: regs += [(1, 0, 0), (31, 0, 31), (17, 16, 15)]
     for sf in (1, 0):
@@ -331,4 +333,40 @@ def words(thorough=False):
         out += [(f"br x{rn}", 0xd61f0000 | (rn << 5)), (f"blr x{rn}", 0xd63f0000 | (rn << 5)), (f"ret x{rn}", 0xd65f0000 | (rn << 5))]
     out.append(("nop", 0xd503201f))
     out.append(("prfm", 0xf9800020))
+    return out
+
+
+def random_words(rnd, n):
+    """n words per class with every field drawn at random (seeded): register numbers incl. 31, immediates, shift/extend
+    options, addressing modes.  Words the reference does not model raise Unsupported and are counted as such."""
+    out = []
+    R = lambda: rnd.choice([rnd.randrange(32), 31, 30, 0])
+    for _ in range(n):
+        sf, op, S = rnd.randrange(2), rnd.randrange(2), rnd.randrange(2)
+        nm = ("sub" if op else "add") + ("s" if S else "")
+        rd, rn, rm = R(), R(), R()
+        if S and rd == 31: rd = rnd.randrange(31)        # cmp/cmn aliases are rejected by the lifter
+        w = (sf << 31) | (op << 30) | (S << 29) | (0b100010 << 23) | (rnd.randrange(2) << 22) | (rnd.randrange(4096) << 10) | (rn << 5) | rd
+        out.append((f"{nm} rnd-imm", w))
+        w = (sf << 31) | (op << 30) | (S << 29) | (0b01011 << 24) | (rnd.randrange(3) << 22) | (rm << 16) | (rnd.randrange(64 if sf else 32) << 10) | (rn << 5) | rd
+        out.append((f"{nm} rnd-shift", w))
+        w = (sf << 31) | (op << 30) | (S << 29) | (0b01011 << 24) | (1 << 21) | (rm << 16) | (rnd.randrange(8) << 13) | (rnd.randrange(5) << 10) | (rn << 5) | rd
+        out.append((f"{nm} rnd-ext", w))
+        size, opc = rnd.randrange(4), rnd.randrange(4)
+        rt = R()
+        form = rnd.randrange(4)
+        if form == 0: w = (size << 30) | (0b111 << 27) | (1 << 24) | (opc << 22) | (rnd.randrange(4096) << 10) | (rn << 5) | rt
+        elif form == 1: w = (size << 30) | (0b111 << 27) | (opc << 22) | (rnd.randrange(512) << 12) | (rnd.choice([0, 1, 3]) << 10) | (rn << 5) | rt
+        else: w = (size << 30) | (0b111 << 27) | (opc << 22) | (1 << 21) | (rm << 16) | (rnd.choice([2, 3, 6, 7]) << 13) | (rnd.randrange(2) << 12) | (2 << 10) | (rn << 5) | rt
+        out.append((f"ldst{size}.{opc} rnd", w))
+        opc2, L, typ = rnd.randrange(3), rnd.randrange(2), rnd.randrange(4)
+        out.append((f"pair{opc2}.{L}.{typ} rnd", (opc2 << 30) | (0b101 << 27) | (typ << 23) | (L << 22) | (rnd.randrange(128) << 15) | (R() << 10) | (rn << 5) | rt))
+        out.append((f"b.{rnd.randrange(16)} rnd", (0b01010100 << 24) | (rnd.randrange(1 << 19) << 5) | rnd.randrange(16)))
+        out.append(("cbz/cbnz rnd", (sf << 31) | (0b011010 << 25) | (rnd.randrange(2) << 24) | (rnd.randrange(1 << 19) << 5) | rt))
+        bit = rnd.randrange(64)
+        out.append(("tbz/tbnz rnd", ((bit >> 5) << 31) | (0b011011 << 25) | (rnd.randrange(2) << 24) | ((bit & 31) << 19) | (rnd.randrange(1 << 14) << 5) | rt))
+        out.append((rnd.choice(["b", "bl"]) + " rnd", (rnd.randrange(2) << 31) | (0b00101 << 26) | rnd.randrange(1 << 26)))
+        hw = rnd.randrange(4 if sf else 2)
+        out.append(("movz rnd", (sf << 31) | (2 << 29) | (0b100101 << 23) | (hw << 21) | (rnd.randrange(65536) << 5) | rd))
+        out.append(("mov rnd", (sf << 31) | (1 << 29) | (0b01010 << 24) | (rm << 16) | (31 << 5) | rd))
     return out
